@@ -68,8 +68,22 @@ def invariant(ls, model):
 
 
 def directory_worker(args):
+    global MAX_AGE
+    try:
+        return _directory_worker(args)
+    finally:
+        MAX_AGE = 300.5
+
+
+def _directory_worker(args):
+    global MAX_AGE
     names = args['names']
-    res = report.WorkResult('directory pre=%s' % (args['pre'],))
+    # the configured age: 300.5 s by default; small limits put the boundary inside the range in which int()/round() of an
+    # age can be followed (they fork over whole values), 0 is the limit "anything not seen just now"
+    MAX_AGE = args.get('max_age', 300.5)
+    dt_max = args.get('dt_max', 1000)
+    as_text = bool(args.get('as_text'))          # the limit as a configuration file gives it
+    res = report.WorkResult('directory pre=%s age-limit=%s' % (args['pre'], MAX_AGE))
     world.start_function_trace()
     res.sites.update(['discover', 'failed-discover', 'expire'])
     pre = args['pre']
@@ -77,7 +91,7 @@ def directory_worker(args):
     for post in posts:
         for op in ('discover', 'failed', 'refresh', 'refresh-failed'):
             def harness(ctx):
-                net = world.configure((), extra_settings={'light_gc_time': MAX_AGE}, discover=False)
+                net = world.configure((), extra_settings={'light_gc_time': str(MAX_AGE) if as_text else MAX_AGE}, discover=False)
                 t0 = ctx.real('t0', 0, 10 ** 6)
                 vt = VTime(t0)
                 saved = light_mod.time
@@ -87,7 +101,7 @@ def directory_worker(args):
                     set_population(net, pre)
                     ok0 = ls.discover()
                     model = {n: (p, t0) for n, p in pre.items()}
-                    dt = ctx.real('dt', 0, 1000)
+                    dt = ctx.real('dt', 0, dt_max)
                     vt.now = t0 + dt
                     msgs = []
                     if ok0 is not True:
@@ -131,7 +145,7 @@ def directory_worker(args):
                     continue
                 res.reached.add(site)
                 mv = ctx.model_values(model)
-                msg = replay_directory(pre, post, op, float(mv['t0']), float(mv['dt']))
+                msg = replay_directory(pre, post, op, float(mv['t0']), float(mv['dt']), as_text)
                 res.violation('directory|%s|%s' % (op, out[0].split(' ')[0]),
                               'history: discover(%s); +%ss; %s(%s): %s\n  replay: %s' % (pre, float(mv['dt']), op, post, out[0], msg),
                               inputs={'pre': pre, 'post': post, 'op': op, 'dt': float(mv['dt'])}, replayed=msg is not None)
@@ -141,12 +155,12 @@ def directory_worker(args):
     return res
 
 
-def replay_directory(pre, post, op, t0, dt):
+def replay_directory(pre, post, op, t0, dt, as_text=False):
     saved_ctx = symx.Ctx.cur
     symx.Ctx.cur = None
     saved = light_mod.time
     try:
-        net = world.configure((), extra_settings={'light_gc_time': str(MAX_AGE)}, discover=False)
+        net = world.configure((), extra_settings={'light_gc_time': str(MAX_AGE) if as_text else MAX_AGE}, discover=False)
         vt = VTime(t0)
         light_mod.time = vt
         ls = net.light_set
@@ -515,12 +529,17 @@ def run(tier, seed):
     names3 = ('a', 'B', 'c')
     snaps3 = list(snapshots(names3))
     if tier == 'quick':
-        for pre in snaps3:
-            items.append({'kind': 'directory', 'names': names3, 'pre': pre, 'posts': snaps3})
+        for i, pre in enumerate(snaps3):
+            items.append({'kind': 'directory', 'names': names3, 'pre': pre, 'posts': snaps3[i % 3::3], 'max_age': (0, 2.5, 0.0)[i % 3], 'dt_max': (1000, 6, 1000)[i % 3]})
+        for i, pre in enumerate(snaps3):
+            items.append({'kind': 'directory', 'names': names3, 'pre': pre, 'posts': snaps3, 'as_text': i % 4 == 3})
         items += [{'kind': 'history', 'names': names3, 'seed': seed * 100 + i, 'count': 20, 'length': 6} for i in range(16)]
     else:
         for pre in snaps3:
             items.append({'kind': 'directory', 'names': names3, 'pre': pre, 'posts': snaps3})
+        for pre in snaps3:
+            for max_age, dt_max in ((0, 1000), (2.5, 6), (0.0, 1000), (20, 40)):
+                items.append({'kind': 'directory', 'names': names3, 'pre': pre, 'posts': snaps3, 'max_age': max_age, 'dt_max': dt_max})
         names4 = ('a', 'B', 'c', 'D')
         snaps4 = list(snapshots(names4))
         for pre in snaps4:
